@@ -12,7 +12,7 @@ use crate::ast::{
 use crate::ast::{FileAst, NodeId};
 use crate::environment::Environment;
 use crate::intrinsic::{BuiltinType, IntrinsicOperation};
-use crate::optimize_bytecode::optimize;
+use crate::optimize_bytecode::{expand_immediates, optimize};
 use crate::parse::PrefixOp;
 use crate::statics::typecheck::Nominal;
 use crate::statics::typecheck::{Prov, SolvedType};
@@ -301,8 +301,11 @@ impl Translator {
     pub(crate) fn translate(&self) -> CompiledProgram {
         let mut st = self.translate_to_assembly();
 
-        self.create_source_location_tables(&mut st);
+        // (the expansion leaves every constant at its place in the pool)
         let constants = gather_constants(&st.lines);
+        st.lines = expand_immediates(mem::take(&mut st.lines), &constants);
+
+        self.create_source_location_tables(&mut st);
         let (instructions, _) = remove_labels_and_constants(&st.lines, &constants);
         let mut filename_arena = vec![];
         for file_data in self.statics.file_db.files.iter() {
